@@ -1,1 +1,802 @@
-fn main() { println!("hello"); }
+//! rtcm-sim: deterministic simulation with fault injection for rtcm-rs.
+//! See /verif/DESIGN.md. Exit codes: 0 property held on everything explored,
+//! 1 violation (VIOLATION line printed), 2 harness error.
+
+mod builder;
+mod coverage;
+mod directed;
+mod judge;
+mod minimize;
+mod par;
+mod refmodel;
+mod rng;
+mod rover;
+mod stats;
+mod stream;
+mod sweep;
+mod trace;
+mod workload;
+
+use builder::{directed_builder, gen_builder_trace, judge_builder, BuilderTrace};
+use judge::judge_stream;
+use minimize::{minimise_builder, minimise_stream, Budget};
+use par::{par_run, Failure, Payload};
+use serde::{Deserialize, Serialize};
+use serde_json::json;
+use stats::Stats;
+use std::collections::BTreeMap;
+use std::time::Instant;
+use stream::{gen_stream, Prop};
+use trace::{StreamTrace, Violation};
+
+const VERIF_DIR: &str = "/verif";
+
+fn repo_dir() -> String {
+    std::env::var("RTCM_REPO").unwrap_or_else(|_| "/repo".to_string())
+}
+
+#[derive(Clone, Debug)]
+struct Opts {
+    id: String,
+    tier: String,
+    seed: u64,
+    jobs: usize,
+    runs: Option<u64>,
+    profile_tag: String,
+    secondary: bool,
+    out_dir: String,
+}
+
+fn harness_error(msg: &str) -> ! {
+    eprintln!("HARNESS-ERROR: {}", msg);
+    println!("HARNESS-ERROR: {}", msg);
+    std::process::exit(2);
+}
+
+// ---------------------------------------------------------------------------
+// known findings
+// ---------------------------------------------------------------------------
+
+#[derive(Clone, Debug)]
+struct Known {
+    property: String,
+    clause: String,
+    needle: String,
+    text: String,
+}
+
+fn load_known() -> Vec<Known> {
+    let path = format!("{}/KNOWN_FINDINGS.txt", VERIF_DIR);
+    let mut out = Vec::new();
+    let Ok(s) = std::fs::read_to_string(&path) else { return out };
+    for line in s.lines() {
+        let line = line.trim();
+        if !line.starts_with("known:") {
+            continue;
+        }
+        // known: property=C13 clause=C13.b match="substring" free text
+        let rest = line["known:".len()..].trim();
+        let mut property = String::new();
+        let mut clause = String::new();
+        let mut needle = String::new();
+        let mut text = String::new();
+        let mut it = rest;
+        loop {
+            it = it.trim_start();
+            if let Some(r) = it.strip_prefix("property=") {
+                let end = r.find(' ').unwrap_or(r.len());
+                property = r[..end].to_string();
+                it = &r[end..];
+            } else if let Some(r) = it.strip_prefix("clause=") {
+                let end = r.find(' ').unwrap_or(r.len());
+                clause = r[..end].to_string();
+                it = &r[end..];
+            } else if let Some(r) = it.strip_prefix("match=\"") {
+                let end = r.find('"').unwrap_or(r.len());
+                needle = r[..end].to_string();
+                it = &r[(end + 1).min(r.len())..];
+            } else {
+                text = it.to_string();
+                break;
+            }
+        }
+        if !property.is_empty() {
+            out.push(Known { property, clause, needle, text });
+        }
+    }
+    out
+}
+
+fn known_match<'a>(known: &'a [Known], v: &Violation) -> Option<usize> {
+    known.iter().position(|k| k.property == v.property && (k.clause.is_empty() || k.clause == v.clause) && (k.needle.is_empty() || v.detail.contains(&k.needle)))
+}
+
+// ---------------------------------------------------------------------------
+// replay files
+// ---------------------------------------------------------------------------
+
+#[derive(Serialize, Deserialize)]
+struct ReplayFile {
+    property: String,
+    clause: String,
+    detail: String,
+    seed: u64,
+    run: u64,
+    origin: String,
+    kind: String, // stream | builder
+    #[serde(skip_serializing_if = "Option::is_none", default)]
+    stream_minimised: Option<StreamTrace>,
+    #[serde(skip_serializing_if = "Option::is_none", default)]
+    stream_original: Option<StreamTrace>,
+    #[serde(skip_serializing_if = "Option::is_none", default)]
+    builder_minimised: Option<BuilderTrace>,
+    #[serde(skip_serializing_if = "Option::is_none", default)]
+    builder_original: Option<BuilderTrace>,
+    minimiser_judge_calls: usize,
+    how_to_replay: String,
+}
+
+fn report_failure(opts: &Opts, f: Failure) -> ! {
+    let id = &opts.id;
+    let mut budget = Budget::new(3000, 20);
+    let (rf, v2) = match &f.payload {
+        Payload::Stream(t) => {
+            let prop = Prop::parse(id).unwrap();
+            let min = minimise_stream(t, prop, &f.violation.clause, &mut budget);
+            let v2 = judge_stream(&min, prop, None).unwrap_or_else(|| f.violation.clone());
+            (
+                ReplayFile {
+                    property: id.clone(),
+                    clause: v2.clause.clone(),
+                    detail: v2.detail.clone(),
+                    seed: t.seed,
+                    run: t.run,
+                    origin: t.origin.clone(),
+                    kind: "stream".into(),
+                    stream_minimised: Some(min),
+                    stream_original: if t.stream.len() <= 16 * 1024 { Some(t.clone()) } else { None },
+                    builder_minimised: None,
+                    builder_original: None,
+                    minimiser_judge_calls: budget.calls,
+                    how_to_replay: format!("cd /verif && ./check {} --replay <this file>", id),
+                },
+                v2,
+            )
+        }
+        Payload::Builder(t) => {
+            let min = minimise_builder(t, &f.violation.clause, &mut budget);
+            let v2 = judge_builder(&min, None).unwrap_or_else(|| f.violation.clone());
+            (
+                ReplayFile {
+                    property: id.clone(),
+                    clause: v2.clause.clone(),
+                    detail: v2.detail.clone(),
+                    seed: t.seed,
+                    run: t.run,
+                    origin: t.origin.clone(),
+                    kind: "builder".into(),
+                    stream_minimised: None,
+                    stream_original: None,
+                    builder_minimised: Some(min),
+                    builder_original: Some(t.clone()),
+                    minimiser_judge_calls: budget.calls,
+                    how_to_replay: format!("cd /verif && ./check {} --replay <this file>", id),
+                },
+                v2,
+            )
+        }
+    };
+    let dir = format!("{}/replays", opts.out_dir);
+    let _ = std::fs::create_dir_all(&dir);
+    let tag = rf.origin.replace(|c: char| !c.is_ascii_alphanumeric(), "_");
+    let tag = &tag[..tag.len().min(40)];
+    let path = format!("{}/{}-s{}-r{}-{}.json", dir, id, rf.seed, rf.run, tag);
+    if let Err(e) = std::fs::write(&path, serde_json::to_string_pretty(&rf).unwrap()) {
+        harness_error(&format!("cannot write replay file {}: {}", path, e));
+    }
+    println!("VIOLATION property={} replay={}", id, path);
+    println!("  clause {}: {}", v2.clause, v2.detail);
+    println!("  found in run {} (origin {}, seed {}); minimised with {} judge calls", f.index, rf.origin, rf.seed, rf.minimiser_judge_calls);
+    write_evidence_violation(opts, &v2, &path);
+    std::process::exit(1);
+}
+
+fn replay(id: &str, path: &str) -> ! {
+    let s = match std::fs::read_to_string(path) {
+        Ok(s) => s,
+        Err(e) => harness_error(&format!("cannot read {}: {}", path, e)),
+    };
+    let rf: ReplayFile = match serde_json::from_str(&s) {
+        Ok(r) => r,
+        Err(e) => harness_error(&format!("cannot parse {}: {}", path, e)),
+    };
+    if rf.property != id {
+        harness_error(&format!("replay file is for property {}, not {}", rf.property, id));
+    }
+    let v = match rf.kind.as_str() {
+        "stream" => {
+            let prop = Prop::parse(id).unwrap_or_else(|| harness_error("not a stream property"));
+            let t = rf.stream_minimised.as_ref().or(rf.stream_original.as_ref()).unwrap_or_else(|| harness_error("no trace in replay file"));
+            judge_stream(t, prop, None)
+        }
+        _ => {
+            let t = rf.builder_minimised.as_ref().or(rf.builder_original.as_ref()).unwrap_or_else(|| harness_error("no trace in replay file"));
+            judge_builder(t, None)
+        }
+    };
+    match v {
+        Some(v) => {
+            println!("VIOLATION property={} replay={}", id, path);
+            println!("  clause {}: {}", v.clause, v.detail);
+            if v.clause != rf.clause {
+                println!("  note: recorded clause was {}", rf.clause);
+            } else if v.detail != rf.detail {
+                println!("  note: same clause, detail text differs from the recorded one: {}", rf.detail);
+            } else {
+                println!("  reproduced exactly (clause and detail identical to the recorded violation)");
+            }
+            std::process::exit(1);
+        }
+        None => {
+            println!("replay: trace in {} does not violate {} on this tree", path, id);
+            std::process::exit(0);
+        }
+    }
+}
+
+// ---------------------------------------------------------------------------
+// tiers
+// ---------------------------------------------------------------------------
+
+fn runs_for(id: &str, tier: &str) -> u64 {
+    match (id, tier) {
+        ("C03", "quick") => 40_000,
+        ("C03", _) => 1_500_000,
+        ("C04", "quick") => 40_000,
+        ("C04", _) => 1_000_000,
+        ("C05", "quick") => 60_000,
+        ("C05", _) => 3_000_000,
+        ("C06", "quick") => 40_000,
+        ("C06", _) => 2_000_000,
+        ("C12", "quick") => 12_000,
+        ("C12", _) => 600_000,
+        ("C13", "quick") => 50_000,
+        ("C13", _) => 2_000_000,
+        _ => 1000,
+    }
+}
+
+// ---------------------------------------------------------------------------
+// stream checks
+// ---------------------------------------------------------------------------
+
+struct Phase {
+    name: String,
+    items: u64,
+    stats: Stats,
+    wall_s: f64,
+}
+
+fn run_stream_check(opts: &Opts, prop: Prop, known: &[Known]) -> (Vec<Phase>, BTreeMap<usize, u64>, serde_json::Value) {
+    let mut phases = Vec::new();
+    let mut known_hits: BTreeMap<usize, u64> = BTreeMap::new();
+    let known_hits_m = std::sync::Mutex::new(BTreeMap::<usize, u64>::new());
+    let handle = |v: Violation, p: Payload| -> Option<(Violation, Payload)> {
+        if v.property != prop.id() {
+            return None;
+        }
+        if let Some(k) = known_match(known, &v) {
+            *known_hits_m.lock().unwrap().entry(k).or_insert(0) += 1;
+            return None;
+        }
+        Some((v, p))
+    };
+    // phase 1: directed corner scenarios
+    let t0 = Instant::now();
+    let scen = directed::scenarios(prop);
+    let (st, fail) = par_run(scen.len() as u64, opts.jobs, |i, st| {
+        let t = &scen[i as usize];
+        let w = coverage::account(t, st, 0, 0);
+        let v = judge_stream(t, prop, Some(st));
+        st.push_digest(t.digest());
+        if i == 0 || i as usize == scen.len() / 2 {
+            st.samples.push((i, t.sample(if v.is_some() { "violation" } else if w.nontrivial { "ok" } else { "ok(trivial)" })));
+        }
+        v.and_then(|v| handle(v, Payload::Stream(t.clone())))
+    });
+    phases.push(Phase { name: "directed".into(), items: scen.len() as u64, stats: st, wall_s: t0.elapsed().as_secs_f64() });
+    if let Some(f) = fail {
+        report_failure(opts, f);
+    }
+    // phase 2: systematic sweeps
+    let mut extra = json!({});
+    if prop == Prop::C04 {
+        let t0 = Instant::now();
+        let thorough = opts.tier == "thorough" && !opts.secondary;
+        let plan = if thorough { sweep::SweepPlan::thorough() } else { sweep::SweepPlan::quick() };
+        let ls: Vec<usize> = if thorough { (0..=1023).collect() } else { vec![0, 1, 2, 3, 5, 6, 7, 8, 31, 100, 255, 256, 511, 512, 1021, 1022, 1023] };
+        let draws = if thorough { 8 } else { 2 };
+        let corpus = sweep::corpus(opts.seed, draws, &ls);
+        let counts_m = std::sync::Mutex::new(sweep::SweepCounts::default());
+        let (st, fail) = par_run(corpus.len() as u64, opts.jobs, |i, st| {
+            let fr = &corpus[i as usize];
+            let mut r = rng::Rng::from_seed(rng::run_seed(opts.seed ^ 0x5EE9, i));
+            let mut counts = sweep::SweepCounts::default();
+            let faults = sweep::faults_for(fr.bytes.len(), &plan, &mut r, &mut counts);
+            let storms = sweep::storms_for(fr, &faults, (i % 4) as u8 + 1, i);
+            let mut res = None;
+            for (si, t) in storms.iter().enumerate() {
+                st.runs += 1;
+                st.stream_bytes += t.stream.len() as u64;
+                st.sim_ns += t.sim_ns as u128;
+                st.fault_n("dup", t.c04.len() as u64);
+                st.push_digest(t.digest());
+                let v = judge_stream(t, prop, Some(st));
+                if si == 0 {
+                    // storms differ by frame and fault list: signature = digest
+                    st.nontrivial_runs += 1;
+                }
+                st.signatures.insert(t.digest());
+                if si == 0 && (i == 0 || i as usize == corpus.len() - 1) {
+                    st.samples.push((1_000_000 + i, t.sample(if v.is_some() { "violation" } else { "ok" })));
+                }
+                if let Some(v) = v {
+                    res = handle(v, Payload::Stream(t.clone()));
+                    if res.is_some() {
+                        break;
+                    }
+                }
+            }
+            {
+                let mut c = counts_m.lock().unwrap();
+                c.flip1 += counts.flip1;
+                c.flip1_exhaustive_frames += counts.flip1_exhaustive_frames;
+                c.flip2 += counts.flip2;
+                c.flip2_exhaustive_frames += counts.flip2_exhaustive_frames;
+                c.flip_odd += counts.flip_odd;
+                c.burst += counts.burst;
+                c.burst_exhaustive_frames += counts.burst_exhaustive_frames;
+            }
+            res
+        });
+        let c = counts_m.into_inner().unwrap();
+        extra = json!({
+            "sweep_corpus_frames": corpus.len(),
+            "sweep_faults": {"flip1": c.flip1, "flip2": c.flip2, "flip_odd": c.flip_odd, "burst": c.burst},
+            "exhaustive_subspaces": [
+                format!("every single-bit position (reserved bits, payload, checksum) of {} corpus frames (frames up to {} bytes)", c.flip1_exhaustive_frames, plan.single_all_max_len),
+                format!("all bit pairs of {} corpus frames (frames up to {} bytes)", c.flip2_exhaustive_frames, plan.pairs_all_max_len),
+                format!("every burst span 2..=24 x every start position (all-ones interior + one random interior) of {} corpus frames (frames up to {} bytes)", c.burst_exhaustive_frames, plan.burst_all_max_len),
+            ],
+            "sampled_subspaces": ["bit pairs on longer frames (distance biased to 1,8,23,24,25,far)", "odd counts 3..=33", "burst start positions on longer frames", "burst interior patterns"],
+        });
+        phases.push(Phase { name: "c04_fault_sweep".into(), items: corpus.len() as u64, stats: st, wall_s: t0.elapsed().as_secs_f64() });
+        if let Some(f) = fail {
+            report_failure(opts, f);
+        }
+    }
+    if prop == Prop::C03 {
+        let t0 = Instant::now();
+        let ls: Vec<usize> = if opts.tier == "thorough" && !opts.secondary { (0..=1023).collect() } else { vec![0, 1, 2, 3, 5, 6, 7, 8, 255, 256, 257, 511, 512, 767, 768, 1021, 1022, 1023] };
+        let n = ls.len() as u64 * 3;
+        let (st, fail) = par_run(n, opts.jobs, |i, st| {
+            let l = ls[(i / 3) as usize];
+            let t = sweep::c03_length_trace(l, (i % 3) as u8, (i % 4) as u8 + 1);
+            let w = coverage::account(&t, st, 0, 0);
+            let _ = w;
+            st.push_digest(t.digest());
+            st.probe("c03_length_sweep_trace");
+            let v = judge_stream(&t, prop, Some(st));
+            if i == 0 {
+                st.samples.push((2_000_000 + i, t.sample(if v.is_some() { "violation" } else { "ok" })));
+            }
+            v.and_then(|v| handle(v, Payload::Stream(t.clone())))
+        });
+        extra = json!({
+            "length_sweep": format!("payload lengths {} x 3 fills, each delivered one byte at a time (every truncation length of every swept L)", if opts.tier == "thorough" && !opts.secondary { "0..=1023 (all)" } else { "18 boundary values" }),
+            "length_sweep_traces": n,
+        });
+        phases.push(Phase { name: "c03_length_sweep".into(), items: n, stats: st, wall_s: t0.elapsed().as_secs_f64() });
+        if let Some(f) = fail {
+            report_failure(opts, f);
+        }
+    }
+    // phase 3: seeded random exploration
+    let t0 = Instant::now();
+    let n = opts.runs.unwrap_or_else(|| runs_for(&opts.id, &opts.tier) / if opts.secondary { 4 } else { 1 });
+    let (st, fail) = par_run(n, opts.jobs, |i, st| {
+        let g = gen_stream(opts.seed, i, prop);
+        let t = &g.trace;
+        let w = coverage::account(t, st, g.stalls, g.short_reads);
+        st.probe_n("generator_refusals_or_panics(workload)", g.gen_failures);
+        st.push_digest(t.digest());
+        let v = judge_stream(t, prop, Some(st));
+        if i == 0 || i == n / 2 || i == n - 1 {
+            st.samples.push((3_000_000 + i, t.sample(if v.is_some() { "violation" } else if w.nontrivial { "ok" } else { "ok(trivial)" })));
+        }
+        v.and_then(|v| handle(v, Payload::Stream(t.clone())))
+    });
+    phases.push(Phase { name: "random".into(), items: n, stats: st, wall_s: t0.elapsed().as_secs_f64() });
+    if let Some(f) = fail {
+        report_failure(opts, f);
+    }
+    for (k, v) in known_hits_m.into_inner().unwrap() {
+        *known_hits.entry(k).or_insert(0) += v;
+    }
+    (phases, known_hits, extra)
+}
+
+fn run_builder_check(opts: &Opts, known: &[Known]) -> (Vec<Phase>, BTreeMap<usize, u64>, serde_json::Value) {
+    let mut phases = Vec::new();
+    let known_hits_m = std::sync::Mutex::new(BTreeMap::<usize, u64>::new());
+    let handle = |v: Violation, p: Payload| -> Option<(Violation, Payload)> {
+        if let Some(k) = known_match(known, &v) {
+            *known_hits_m.lock().unwrap().entry(k).or_insert(0) += 1;
+            return None;
+        }
+        Some((v, p))
+    };
+    let t0 = Instant::now();
+    let scen = directed_builder();
+    let (st, fail) = par_run(scen.len() as u64, opts.jobs, |i, st| {
+        let t = &scen[i as usize];
+        st.push_digest(t.digest());
+        let v = judge_builder(t, Some(st));
+        if i == 0 || i as usize == scen.len() / 2 {
+            st.samples.push((i, t.sample(if v.is_some() { "violation" } else { "ok" })));
+        }
+        v.and_then(|v| handle(v, Payload::Builder(t.clone())))
+    });
+    phases.push(Phase { name: "directed".into(), items: scen.len() as u64, stats: st, wall_s: t0.elapsed().as_secs_f64() });
+    if let Some(f) = fail {
+        report_failure(opts, f);
+    }
+    let t0 = Instant::now();
+    let n = opts.runs.unwrap_or_else(|| runs_for(&opts.id, &opts.tier) / if opts.secondary { 4 } else { 1 });
+    let (st, fail) = par_run(n, opts.jobs, |i, st| {
+        let t = gen_builder_trace(opts.seed, i);
+        st.push_digest(t.digest());
+        let v = judge_builder(&t, Some(st));
+        if i == 0 || i == n / 2 || i == n - 1 {
+            st.samples.push((3_000_000 + i, t.sample(if v.is_some() { "violation" } else { "ok" })));
+        }
+        v.and_then(|v| handle(v, Payload::Builder(t.clone())))
+    });
+    phases.push(Phase { name: "random".into(), items: n, stats: st, wall_s: t0.elapsed().as_secs_f64() });
+    if let Some(f) = fail {
+        report_failure(opts, f);
+    }
+    (phases, known_hits_m.into_inner().unwrap(), json!({}))
+}
+
+// ---------------------------------------------------------------------------
+// evidence
+// ---------------------------------------------------------------------------
+
+fn level_of(id: &str) -> &'static str {
+    if id == "C04" {
+        "fault_enumeration"
+    } else {
+        "exploration"
+    }
+}
+
+fn rule_of(id: &str) -> String {
+    match id {
+        "C12" => "cases = operation histories on one long-lived MessageBuilder (directed corner histories, then histories generated from VERIF_SEED: builds of decoded generated messages of all types, refusals part-way, no-wire-form messages, k-th-put failures injected through the guarded hook, generator calls); after every judged op the result is compared with a fresh builder's. distinct = distinct run signature (order-sensitive hash of per-op outcome class and frame-length class); non-trivial = history of at least two operations with at least one judged op".to_string(),
+        _ => "cases = simulated runs station(s)->mux->channel->rover (directed corner scenarios, systematic sweeps where the property names an enumerable space, then runs generated from VERIF_SEED: real-encoder frames of all types + foreign frames of all lengths + noise, channel faults, a read schedule from the discrete-event line/poll model or a directed cut strategy, one of four rover variants). distinct = distinct run signature (order-sensitive hash of fault kinds x item kinds, and per chunk: size class, effect on the head candidate, frames delivered, bytes skipped, abstract tail state, cut class relative to the frame it falls in; plus rover variant); non-trivial = the reference rover delivered a frame or skipped a dead candidate AND (>= 2 chunks or >= 1 fault)".to_string(),
+    }
+}
+
+fn components() -> serde_json::Value {
+    json!({
+        "real": [
+            "rtcm_rs::next_msg_frame", "rtcm_rs::MsgFrameIter::{new,next,consumed}",
+            "rtcm_rs::MessageFrame::{new,frame_len,data_len,data,frame_data,crc,message_number,get_message}",
+            "rtcm_rs::MessageBuilder::{new,build_message,build_generated_message}",
+            "rtcm_rs::val_gen::ValGen + per-message generate (feature test_gen)",
+            "crc-any CRC::crc24lte_a as linked by rtcm-rs",
+            "Assembler::put failure hook (cfg rtcm_rs_verif, thread-local, off by default)"
+        ],
+        "stub": [
+            "foreign framer (reference CRC)", "noise source (NMEA/UBX/random/0xD3-heavy/zeros/headers)",
+            "mux + channel fault processes + line clock", "rover buffer management V1..V4 (caller-side contract code)",
+            "reference model (crc24q, ref_accept, ref_scan, ref_number) used as oracle"
+        ]
+    })
+}
+
+fn required_nonzero(id: &str, tier: &str) -> (Vec<&'static str>, Vec<&'static str>) {
+    // (fault kinds, probes) that must have fired for the batch to mean anything
+    let _ = tier;
+    match id {
+        "C03" => (vec!["trunc_tail", "hdr_len", "hdr_pre"], vec!["c03_accept", "c03_incomplete", "c03_notvalid", "c03_notaframe", "c03_L0", "c03_L1", "c03_L1023", "c03_reserved_nonzero_accepted", "c03_incomplete_one_byte_short", "c03_reserved_sweep_64"]),
+        "C04" => (vec!["c04_flip1", "c04_flip2", "c04_flip_odd", "c04_burst", "dup"], vec!["c04_hits_checksum", "c04_hits_reserved_bits", "c04_hits_payload", "c04_L0_frame", "c04_L1023_frame"]),
+        "C05" => (
+            vec!["drop", "trunc_tail", "insert", "dup", "swap", "flip_any", "hdr_len", "hdr_pre", "rx_restart"],
+            vec!["scan_frame", "scan_frame_after_skipped_bytes", "scan_skipped_dead_candidate_before_frame", "scan_blocked_by_incomplete", "scan_consume_all_no_candidate", "scan_incomplete_blocks_later_valid_frame", "iter_pass", "iter_stops_at_incomplete", "nested_in_valid_outer", "nested_in_broken_outer", "nested_in_incomplete_outer", "long_header_item"],
+        ),
+        "C06" => (
+            vec!["drop", "trunc_tail", "insert", "dup", "rx_restart", "short_read", "stall"],
+            vec!["cut_after_preamble", "cut_inside_length_field", "cut_inside_payload", "cut_inside_checksum", "cut_before_checksum", "cut_exactly_at_frame_end", "c06_frames_compared"],
+        ),
+        "C12" => (vec!["put_fail", "natural_fail", "natural_fail:no_wire_form"], vec!["c12_fail_then_ok", "c12_long_then_short", "c12_short_then_long", "c12_injected_fail_at_first_put", "c12_injected_fail_deeper_than_next_frame", "c12_padding_bits_1to7"]),
+        "C13" => (vec!["short_read", "stall"], vec!["c13_suffix_0", "c13_suffix_1", "c13_suffix_2to5", "c13_suffix_ge_frame", "c13_L0_delivered", "c13_L1_delivered", "c13_L1023_delivered", "c13_short_payload_with_2plus_suffix", "c13_directed_suffix_set", "c13_decoded_typed", "c13_decoded_empty"]),
+        _ => (vec![], vec![]),
+    }
+}
+
+fn evidence_path(opts: &Opts) -> String {
+    format!("{}/evidence/{}.json", opts.out_dir, opts.id)
+}
+
+fn write_evidence_violation(opts: &Opts, v: &Violation, replay: &str) {
+    let ev = json!({
+        "property_id": opts.id, "tier": opts.tier, "seed": opts.seed, "level": level_of(&opts.id),
+        "wall_s": 0.0, "violations": 1,
+        "assumptions": ["run stopped at the first violation; coverage counters are not meaningful for a failing run"],
+        "coverage": {"evaluations": 1, "distinct_nontrivial": 0, "rule": rule_of(&opts.id),
+            "samples": [{"violation": {"clause": v.clause, "detail": v.detail, "replay": replay}}]},
+    });
+    let _ = std::fs::create_dir_all(format!("{}/evidence", opts.out_dir));
+    let _ = std::fs::write(evidence_path(opts), serde_json::to_string_pretty(&ev).unwrap());
+}
+
+fn finish(opts: &Opts, phases: Vec<Phase>, known: &[Known], known_hits: BTreeMap<usize, u64>, extra: serde_json::Value, wall_s: f64, self_test_vectors: usize) -> ! {
+    let mut total = Stats::default();
+    let mut phase_json = Vec::new();
+    for p in phases {
+        phase_json.push(json!({"phase": p.name, "items": p.items, "runs": p.stats.runs, "wall_s": (p.wall_s * 1000.0).round() / 1000.0,
+            "batch_digest": format!("{:016x}/{:016x}", p.stats.digest_xor, p.stats.digest_sum)}));
+        total.merge(p.stats);
+    }
+    // harness self-check: required faults / probes fired?
+    let (need_f, need_p) = required_nonzero(&opts.id, &opts.tier);
+    let mut missing = Vec::new();
+    if opts.runs.is_none() {
+        for f in need_f {
+            if total.faults.get(f).copied().unwrap_or(0) == 0 {
+                missing.push(format!("fault:{}", f));
+            }
+        }
+        for p in need_p {
+            if total.probes.get(p).copied().unwrap_or(0) == 0 {
+                missing.push(format!("probe:{}", p));
+            }
+        }
+    }
+    let mut samples = total.samples.clone();
+    samples.sort_by_key(|s| s.0);
+    let samples: Vec<serde_json::Value> = samples.into_iter().map(|s| s.1).take(8).collect();
+    let sim_s = total.sim_ns as f64 / 1e9;
+    let per_hour = if wall_s > 0.0 { (total.runs as f64 / wall_s * 3600.0) as u64 } else { 0 };
+    let mut coverage = json!({
+        "evaluations": total.runs,
+        "distinct_nontrivial": total.signatures.len(),
+        "nontrivial_runs": total.nontrivial_runs,
+        "rule": rule_of(&opts.id),
+        "samples": samples,
+        "oracle_evaluations": total.oracle_evals,
+        "scanner_calls": total.scanner_calls,
+        "stream_bytes": total.stream_bytes,
+        "runs_per_hour": per_hour,
+        "seeds_per_hour": per_hour,
+        "simulated_seconds": if opts.id == "C12" { serde_json::Value::Null } else { json!((sim_s * 1000.0).round() / 1000.0) },
+        "discrete_events": total.events,
+        "faults_fired": total.faults,
+        "probes": total.probes,
+        "strategies": total.strategies,
+        "abstract_states": total.abs_states.len(),
+        "abstract_transitions": total.abs_transitions.len(),
+        "states": total.abs_states.len(),
+        "transitions": total.abs_transitions.len(),
+        "exhaustive": false,
+        "phases": phase_json,
+        "components": components(),
+        "build_profile": opts.profile_tag,
+        "out_of_scope_observations": total.out_of_scope,
+        "reference_self_test_vectors": self_test_vectors,
+        "batch_digest": format!("{:016x}/{:016x}", total.digest_xor, total.digest_sum),
+        "known_findings_matched": known_hits.values().sum::<u64>(),
+    });
+    if let (Some(obj), Some(ex)) = (coverage.as_object_mut(), extra.as_object()) {
+        for (k, v) in ex {
+            obj.insert(k.clone(), v.clone());
+        }
+    }
+    let assumptions = vec![
+        "sampling, not proof: a clean batch is evidence that the property holds on the runs explored".to_string(),
+        "trusted base: reference CRC-24Q / ref_accept / ref_scan / ref_number (refmodel.rs), cross-checked at start-up against the CRC catalogue check value and the shipped single-frame vectors".to_string(),
+        "rover buffer handling, channel, foreign framer and noise source are stubs implementing the caller's side of the documented contract".to_string(),
+        "decoder panics on CRC-valid hostile payloads (C02) are out of scope and only counted under out_of_scope_observations".to_string(),
+    ];
+    let path = evidence_path(opts);
+    let _ = std::fs::create_dir_all(format!("{}/evidence", opts.out_dir));
+    if opts.secondary {
+        // second build profile of the thorough tier: fold a summary into the existing file
+        let mut ev: serde_json::Value = std::fs::read_to_string(&path).ok().and_then(|s| serde_json::from_str(&s).ok()).unwrap_or_else(|| harness_error("secondary profile run without primary evidence"));
+        let w0 = ev["wall_s"].as_f64().unwrap_or(0.0);
+        ev["wall_s"] = json!(((w0 + wall_s) * 1000.0).round() / 1000.0);
+        ev["coverage"]["second_profile"] = json!({"build_profile": opts.profile_tag, "evaluations": total.runs, "distinct_nontrivial": total.signatures.len(),
+            "oracle_evaluations": total.oracle_evals, "wall_s": (wall_s * 1000.0).round() / 1000.0, "violations": 0,
+            "batch_digest": format!("{:016x}/{:016x}", total.digest_xor, total.digest_sum)});
+        if let Err(e) = std::fs::write(&path, serde_json::to_string_pretty(&ev).unwrap()) {
+            harness_error(&format!("cannot write {}: {}", path, e));
+        }
+    } else {
+        let ev = json!({
+            "property_id": opts.id, "tier": opts.tier, "seed": opts.seed, "level": level_of(&opts.id),
+            "wall_s": (wall_s * 1000.0).round() / 1000.0, "violations": 0, "assumptions": assumptions, "coverage": coverage,
+        });
+        if let Err(e) = std::fs::write(&path, serde_json::to_string_pretty(&ev).unwrap()) {
+            harness_error(&format!("cannot write {}: {}", path, e));
+        }
+    }
+    for (k, n) in &known_hits {
+        let kf = &known[*k];
+        println!("KNOWN-FINDING: property={} {} (clause {}, matched {} runs)", kf.property, kf.text, kf.clause, n);
+    }
+    println!(
+        "OK property={} tier={} profile={} seed={} runs={} distinct_nontrivial={} oracle_evals={} wall={:.1}s digest={:016x}/{:016x}",
+        opts.id,
+        opts.tier,
+        opts.profile_tag,
+        opts.seed,
+        total.runs,
+        total.signatures.len(),
+        total.oracle_evals,
+        wall_s,
+        total.digest_xor,
+        total.digest_sum
+    );
+    if !missing.is_empty() {
+        harness_error(&format!("batch proved less than it claims: never fired: {}", missing.join(", ")));
+    }
+    std::process::exit(0);
+}
+
+// ---------------------------------------------------------------------------
+// determinism self-test
+// ---------------------------------------------------------------------------
+
+/// per-run digests for run indices lo..hi of property `id`, printed one per line;
+/// the `check` script runs this in separate processes with different worker
+/// counts and diffs the output
+fn digests(id: &str, seed: u64, lo: u64, hi: u64, jobs: usize) {
+    let out = std::sync::Mutex::new(BTreeMap::<u64, String>::new());
+    let n = hi - lo;
+    if id == "C12" {
+        par_run(n, jobs, |i, _st| {
+            let t = gen_builder_trace(seed, lo + i);
+            let mut st = Stats::default();
+            let v = judge_builder(&t, Some(&mut st));
+            let line = format!("{} {:016x} {} {} {:?}", lo + i, t.digest(), st.oracle_evals, st.abs_transitions.len(), v.map(|v| v.clause));
+            out.lock().unwrap().insert(lo + i, line);
+            None
+        });
+    } else {
+        let prop = Prop::parse(id).unwrap_or_else(|| harness_error("unknown property"));
+        par_run(n, jobs, |i, _st| {
+            let g = gen_stream(seed, lo + i, prop);
+            let mut st = Stats::default();
+            let w = coverage::account(&g.trace, &mut st, g.stalls, g.short_reads);
+            let v = judge_stream(&g.trace, prop, Some(&mut st));
+            let mut pd = rng::Digest::new();
+            for (k, c) in &st.probes {
+                pd.push_str(k);
+                pd.push(*c);
+            }
+            for (k, c) in &st.faults {
+                pd.push_str(k);
+                pd.push(*c);
+            }
+            let line = format!("{} {:016x} {:016x} {:016x} {} {} {:?}", lo + i, g.trace.digest(), g.trace.event_digest, w.signature, st.oracle_evals, pd.finish(), v.map(|v| v.clause));
+            out.lock().unwrap().insert(lo + i, line);
+            None
+        });
+    }
+    for (_, l) in out.into_inner().unwrap() {
+        println!("{}", l);
+    }
+}
+
+// ---------------------------------------------------------------------------
+// main
+// ---------------------------------------------------------------------------
+
+fn usage() -> ! {
+    eprintln!("usage: rtcm-sim check <ID> [--tier quick|thorough] [--seed N] [--jobs N] [--runs N] [--profile-tag T] [--secondary] [--out-dir D]");
+    eprintln!("       rtcm-sim replay <ID> <file>");
+    eprintln!("       rtcm-sim one <ID> --seed S --run R");
+    eprintln!("       rtcm-sim digests <ID> --seed S --lo A --hi B --jobs N");
+    std::process::exit(2);
+}
+
+fn main() {
+    workload::install_quiet_panic_hook();
+    let args: Vec<String> = std::env::args().collect();
+    if args.len() < 3 {
+        usage();
+    }
+    let cmd = args[1].as_str();
+    let id = args[2].clone();
+    let mut tier = std::env::var("VERIF_TIER").ok().filter(|t| t == "quick" || t == "thorough").unwrap_or_else(|| "quick".to_string());
+    let mut seed: u64 = std::env::var("VERIF_SEED").ok().and_then(|s| s.trim().parse().ok()).unwrap_or(1);
+    let mut jobs: usize = std::thread::available_parallelism().map(|n| n.get()).unwrap_or(4);
+    let mut runs: Option<u64> = None;
+    let mut run_idx: u64 = 0;
+    let mut lo: u64 = 0;
+    let mut hi: u64 = 100;
+    let mut profile_tag = "release".to_string();
+    let mut secondary = false;
+    let mut out_dir = VERIF_DIR.to_string();
+    let mut file: Option<String> = None;
+    let mut i = 3;
+    while i < args.len() {
+        let a = args[i].as_str();
+        let mut val = || -> String {
+            i += 1;
+            args.get(i).cloned().unwrap_or_else(|| usage())
+        };
+        match a {
+            "--tier" => tier = val(),
+            "--seed" => seed = val().parse().unwrap_or_else(|_| usage()),
+            "--jobs" => jobs = val().parse().unwrap_or_else(|_| usage()),
+            "--runs" => runs = Some(val().parse().unwrap_or_else(|_| usage())),
+            "--run" => run_idx = val().parse().unwrap_or_else(|_| usage()),
+            "--lo" => lo = val().parse().unwrap_or_else(|_| usage()),
+            "--hi" => hi = val().parse().unwrap_or_else(|_| usage()),
+            "--profile-tag" => profile_tag = val(),
+            "--secondary" => secondary = true,
+            "--out-dir" => out_dir = val(),
+            other if !other.starts_with("--") && file.is_none() => file = Some(other.to_string()),
+            _ => usage(),
+        }
+        i += 1;
+    }
+    if tier != "quick" && tier != "thorough" {
+        usage();
+    }
+    let opts = Opts { id: id.clone(), tier, seed, jobs, runs, profile_tag, secondary, out_dir };
+    match cmd {
+        "replay" => replay(&id, file.as_deref().unwrap_or_else(|| usage())),
+        "digests" => {
+            digests(&id, seed, lo, hi, jobs);
+        }
+        "one" => {
+            if id == "C12" {
+                let t = gen_builder_trace(seed, run_idx);
+                println!("{}", serde_json::to_string_pretty(&t).unwrap());
+                match judge_builder(&t, None) {
+                    Some(v) => println!("violation {}: {}", v.clause, v.detail),
+                    None => println!("ok"),
+                }
+            } else {
+                let prop = Prop::parse(&id).unwrap_or_else(|| usage());
+                let g = gen_stream(seed, run_idx, prop);
+                println!("{}", serde_json::to_string_pretty(&g.trace.sample("?")).unwrap());
+                match judge_stream(&g.trace, prop, None) {
+                    Some(v) => println!("violation {}: {}", v.clause, v.detail),
+                    None => println!("ok"),
+                }
+            }
+        }
+        "check" => {
+            let t0 = Instant::now();
+            println!("rtcm-sim check {} tier={} VERIF_SEED={} jobs={} profile={}", opts.id, opts.tier, opts.seed, opts.jobs, opts.profile_tag);
+            let vectors = match refmodel::self_test(&repo_dir()) {
+                Ok(n) => n,
+                Err(e) => harness_error(&format!("reference model self-test failed: {}", e)),
+            };
+            let known = load_known();
+            let (phases, hits, extra) = if id == "C12" {
+                run_builder_check(&opts, &known)
+            } else {
+                let prop = Prop::parse(&id).unwrap_or_else(|| harness_error(&format!("property {} is not claimed by this engine", id)));
+                run_stream_check(&opts, prop, &known)
+            };
+            finish(&opts, phases, &known, hits, extra, t0.elapsed().as_secs_f64(), vectors);
+        }
+        _ => usage(),
+    }
+}
